@@ -232,7 +232,9 @@ func run(c Sx) Result {
 				sameLen = false
 			}
 		}
-		if sameLen {
+		// (and not the empty key: StackTrie.Update panics in writeHexKey on it; that
+		// behaviour is compared with the model by op 4)
+		if sameLen && len(keys[0]) > 0 {
 			st := trie.NewStackTrie(nil)
 			for _, k := range keys {
 				st.Update([]byte(k), ref[k])
@@ -297,7 +299,7 @@ func genKey(r *Rng, style int) []byte {
 		return k
 	default: // 32-byte keys sharing long prefixes
 		k := make([]byte, 32)
-		base := byte(r.Intn(3))
+		base := []byte{0x00, 0x01, 0x10, 0x22, 0xf0}[r.Intn(5)] // 4 different first nibbles: the root is a branch
 		for i := range k {
 			k[i] = base
 		}
@@ -389,6 +391,9 @@ func genStackOp(r *Rng) Sx {
 		seen[string(k)] = true
 		keys = append(keys, string(k))
 	}
+	if r.Chance(1, 15) {
+		keys = append(keys, "") // the empty key: writeHexKey panics (index out of range [-1])
+	}
 	if !r.Chance(1, 8) {
 		sort.Strings(keys)
 	}
@@ -401,6 +406,250 @@ func genStackOp(r *Rng) Sx {
 		kvs = append(kvs, L(B([]byte(k)), B(v)))
 	}
 	return L(I(4), kvs)
+}
+
+
+// applyRef applies an update list to the generator's own copy of the key-value set
+// (last write wins, empty value = deletion) so that later ops can be shaped by it.
+func applyRef(cur map[string][]byte, k, v []byte) {
+	if len(v) == 0 {
+		delete(cur, string(k))
+	} else {
+		cur[string(k)] = v
+	}
+}
+
+type kvEnt struct{ k, v []byte }
+
+// freshVal is a non-empty value (embedded or hashed leaf encodings).
+func freshVal(r *Rng) []byte {
+	if r.Chance(1, 4) {
+		return r.Bytes(32 + r.Intn(9))
+	}
+	return r.Bytes(1 + r.Intn(6))
+}
+
+// repeatSeq emits 2-3 entries for ONE key in a fixed relative order: put/put,
+// put/erase, erase/put, put/erase/put, erase/erase, put/put/erase, put/same-put.
+func repeatSeq(r *Rng, k []byte) []kvEnt {
+	v1, v2 := freshVal(r), freshVal(r)
+	switch r.Intn(7) {
+	case 0:
+		return []kvEnt{{k, v1}, {k, v2}}
+	case 1:
+		return []kvEnt{{k, v1}, {k, nil}}
+	case 2:
+		return []kvEnt{{k, nil}, {k, v1}}
+	case 3:
+		return []kvEnt{{k, v1}, {k, nil}, {k, v2}}
+	case 4:
+		return []kvEnt{{k, nil}, {k, nil}}
+	case 5:
+		return []kvEnt{{k, v1}, {k, v2}, {k, nil}}
+	default:
+		return []kvEnt{{k, v1}, {k, v1}}
+	}
+}
+
+// shapedBatch builds an UpdateBatch from the CURRENT key set: it keeps 0, 1 or 2 of
+// the populated root positions (first nibbles) and deletes every key of the other
+// positions (sometimes all but one key: a near miss), adds 0-3 repeated-key
+// sequences (on surviving keys, on keys being deleted, on fresh keys, on fresh keys
+// in positions that end up empty) and 0-3 random entries; the per-key streams are
+// merged in random order (relative order inside a stream kept).  A quarter of the
+// batches are cut below the parallel threshold (4), the others padded above it.
+func shapedBatch(r *Rng, ks int, cur map[string][]byte) []kvEnt {
+	byPos := map[byte][]string{}
+	var poss []int
+	for k := range cur {
+		if len(k) == 0 {
+			continue
+		}
+		p := k[0] >> 4
+		if len(byPos[p]) == 0 {
+			poss = append(poss, int(p))
+		}
+		byPos[p] = append(byPos[p], k)
+	}
+	sort.Ints(poss)
+	for _, p := range poss {
+		sort.Strings(byPos[byte(p)])
+	}
+	// choose survivors
+	keep := map[int]bool{}
+	nkeep := r.Intn(3)
+	for i := 0; i < nkeep && len(poss) > 0; i++ {
+		keep[poss[r.Intn(len(poss))]] = true
+	}
+	var streams [][]kvEnt
+	var emptied []int
+	for _, p := range poss {
+		if keep[p] {
+			continue
+		}
+		keys := byPos[byte(p)]
+		spare := -1
+		if r.Chance(1, 6) {
+			spare = r.Intn(len(keys)) // near miss: one key of the position survives
+		} else {
+			emptied = append(emptied, p)
+		}
+		for i, k := range keys {
+			if i == spare {
+				continue
+			}
+			if r.Chance(1, 4) { // the deletion is itself part of a repeated-key sequence ending in erase
+				streams = append(streams, []kvEnt{{[]byte(k), freshVal(r)}, {[]byte(k), nil}})
+			} else {
+				streams = append(streams, []kvEnt{{[]byte(k), nil}})
+			}
+		}
+	}
+	// repeated-key sequences
+	nrep := r.Intn(4)
+	for i := 0; i < nrep; i++ {
+		var k []byte
+		switch r.Intn(4) {
+		case 0: // an existing key
+			if len(cur) > 0 {
+				all := make([]string, 0, len(cur))
+				for kk := range cur {
+					all = append(all, kk)
+				}
+				sort.Strings(all)
+				k = []byte(all[r.Intn(len(all))])
+			}
+		case 1: // a fresh key in a position that the batch empties (or that is empty)
+			k = genKey(r, ks)
+			if len(emptied) > 0 && len(k) > 0 {
+				k[0] = byte(emptied[r.Intn(len(emptied))])<<4 | k[0]&0x0f
+			} else if len(k) > 0 {
+				k[0] = byte(r.Intn(16))<<4 | k[0]&0x0f
+			}
+		}
+		if k == nil {
+			k = genKey(r, ks)
+		}
+		seq := repeatSeq(r, k)
+		if len(emptied) > 0 && r.Chance(1, 2) {
+			// make sure the position stays/gets empty: the sequence ends with an erase
+			seq = append(seq, kvEnt{k, nil})
+		}
+		streams = append(streams, seq)
+	}
+	for i, n := 0, r.Intn(4); i < n; i++ {
+		streams = append(streams, []kvEnt{{genKey(r, ks), genVal(r)}})
+	}
+	// streams for the same key must stay in order relative to each other: merge
+	// streams of equal keys first
+	merged := map[string]int{}
+	var ss [][]kvEnt
+	for _, st := range streams {
+		if idx, ok := merged[string(st[0].k)]; ok {
+			ss[idx] = append(ss[idx], st...)
+		} else {
+			merged[string(st[0].k)] = len(ss)
+			ss = append(ss, st)
+		}
+	}
+	var out []kvEnt
+	for len(ss) > 0 {
+		i := r.Intn(len(ss))
+		out = append(out, ss[i][0])
+		ss[i] = ss[i][1:]
+		if len(ss[i]) == 0 {
+			ss[i] = ss[len(ss)-1]
+			ss = ss[:len(ss)-1]
+		}
+	}
+	if r.Chance(1, 4) {
+		if len(out) > 3 {
+			out = out[:1+r.Intn(3)]
+		}
+	} else {
+		for len(out) < 4 { // pad above the threshold with no-op erasures / re-erasures
+			if len(out) > 0 && r.Chance(1, 2) {
+				e := out[r.Intn(len(out))]
+				out = append(out, kvEnt{e.k, nil})
+				if len(e.v) != 0 { // keep the shape: the appended erase may undo a put, re-put afterwards
+					out = append(out, kvEnt{e.k, e.v})
+				}
+			} else {
+				out = append(out, kvEnt{genKey(r, ks), nil})
+			}
+		}
+	}
+	return out
+}
+
+func randOrder(r *Rng) SL {
+	// application order used by the MODEL: a random permutation of 0..16 (the result is
+	// order independent: C06_batch_eq_sequential); the Go side runs the real goroutines
+	perm := make([]int, 17)
+	for nb := range perm {
+		perm[nb] = nb
+	}
+	for nb := 16; nb > 0; nb-- {
+		o := r.Intn(nb + 1)
+		perm[nb], perm[o] = perm[o], perm[nb]
+	}
+	var order SL
+	for _, nb := range perm {
+		order = append(order, I(int64(nb)))
+	}
+	return order
+}
+
+// batchExhaustive: every initial subset (>= 2 keys) of three one-byte keys in three
+// different root positions, followed by EVERY batch of exactly n entries over
+// {put, erase} x the three keys (so: all repeated-key patterns, all ways of emptying
+// 0-3 root children), then the iteration.  step/pick select a 1/step slice.
+func batchExhaustive(n int, step, pick int, emit func(Sx)) {
+	keys := [][]byte{{0x00}, {0x10}, {0x20}}
+	cnt := 0
+	for init := 0; init < 8; init++ {
+		if init&(init-1) == 0 { // fewer than two keys: the root is not a branch
+			continue
+		}
+		idx := make([]int, n)
+		for {
+			if cnt%step == pick {
+				var ops SL
+				for i, k := range keys {
+					if init>>uint(i)&1 == 1 {
+						ops = append(ops, L(I(0), B(k), B([]byte{0x01, byte(i)})))
+					}
+				}
+				var kvs SL
+				for _, o := range idx {
+					var v []byte
+					if o%2 == 0 {
+						v = []byte{byte(0xb0 + o/2), 0x02}
+					}
+					kvs = append(kvs, L(B(keys[o/2]), B(v)))
+				}
+				var order SL
+				for nb := 16; nb >= 0; nb-- {
+					order = append(order, I(int64(nb)))
+				}
+				ops = append(ops, L(I(1), order, kvs), L(I(3)))
+				emit(ops)
+			}
+			cnt++
+			i := n - 1
+			for i >= 0 {
+				idx[i]++
+				if idx[i] < 6 {
+					break
+				}
+				idx[i] = 0
+				i--
+			}
+			if i < 0 {
+				break
+			}
+		}
+	}
 }
 
 func gen(r *Rng, tier string, emit func(Sx)) {
@@ -425,50 +674,66 @@ func gen(r *Rng, tier string, emit func(Sx)) {
 			exhaustive(l, emit)
 		}
 	}
+	// every batch of 4 entries over 3 keys x {put, erase} on every branch-rooted initial
+	// set (quick: all 5184; thorough: also 1/4 of the batches of 5 entries)
+	batchExhaustive(4, 1, 0, emit)
+	if tier == "thorough" {
+		batchExhaustive(5, 4, r.Intn(4), emit)
+	}
 	for i := 0; i < n; i++ {
 		ks := r.Intn(3) // 0: dense 4-symbol keys, 1: 32-byte keys, 2: wide first nibbles
 		nops := 1 + r.Intn(30)
+		cur := map[string][]byte{}
 		var ops SL
 		for j := 0; j < nops; j++ {
 			switch r.Intn(10) {
-			case 0, 1: // batch
-				sz := 1 + r.Intn(10)
-				if r.Chance(1, 4) {
-					sz = 3 + r.Intn(38)
-				}
-				delHeavy := r.Chance(1, 3)
-				var kvs SL
-				for q := 0; q < sz; q++ {
-					v := genVal(r)
-					if delHeavy && r.Chance(1, 2) {
-						v = nil
+			case 0, 1, 2: // batch
+				var ents []kvEnt
+				if len(cur) >= 2 && r.Chance(1, 2) {
+					ents = shapedBatch(r, ks, cur)
+				} else {
+					sz := 1 + r.Intn(10)
+					if r.Chance(1, 4) {
+						sz = 3 + r.Intn(38)
 					}
-					kvs = append(kvs, L(B(genKey(r, ks)), B(v)))
+					delHeavy := r.Chance(1, 3)
+					for q := 0; q < sz; q++ {
+						v := genVal(r)
+						if delHeavy && r.Chance(1, 2) {
+							v = nil
+						}
+						k := genKey(r, ks)
+						if len(ents) > 0 && r.Chance(1, 5) { // repeat a key of this batch
+							k = ents[r.Intn(len(ents))].k
+						}
+						ents = append(ents, kvEnt{k, v})
+					}
 				}
-				// application order used by the MODEL: a random permutation of 0..16 (the
-				// result is order independent: C06_batch_eq_sequential); the Go side runs
-				// the real goroutines
-				perm := make([]int, 17)
-				for nb := range perm {
-					perm[nb] = nb
+				var kvs SL
+				for _, e := range ents {
+					kvs = append(kvs, L(B(e.k), B(e.v)))
+					applyRef(cur, e.k, e.v)
 				}
-				for nb := 16; nb > 0; nb-- {
-					o := r.Intn(nb + 1)
-					perm[nb], perm[o] = perm[o], perm[nb]
-				}
-				var order SL
-				for _, nb := range perm {
-					order = append(order, I(int64(nb)))
-				}
-				ops = append(ops, L(I(1), order, kvs))
-			case 2:
+				ops = append(ops, L(I(1), randOrder(r), kvs))
+			case 3:
 				if r.Chance(1, 3) {
 					ops = append(ops, L(I(3)))
 				} else {
 					ops = append(ops, L(I(2), B(genKey(r, ks))))
 				}
 			default:
-				ops = append(ops, L(I(0), B(genKey(r, ks)), B(genVal(r))))
+				k, v := genKey(r, ks), genVal(r)
+				if len(cur) > 0 && len(v) == 0 && r.Chance(1, 2) {
+					// delete an existing key rather than (mostly) an absent one
+					all := make([]string, 0, len(cur))
+					for kk := range cur {
+						all = append(all, kk)
+					}
+					sort.Strings(all)
+					k = []byte(all[r.Intn(len(all))])
+				}
+				applyRef(cur, k, v)
+				ops = append(ops, L(I(0), B(k), B(v)))
 			}
 		}
 		ops = append(ops, L(I(3)))
@@ -482,7 +747,7 @@ func gen(r *Rng, tier string, emit func(Sx)) {
 func main() {
 	Main(Family{
 		ID:   "C06",
-		Rule: "random histories (1-30 ops) of Update/Delete (empty value)/UpdateBatch (1-40 entries, real goroutines; a third of the batches deletion-heavy; the model applies the per-nibble groups in a random order)/Get on an in-memory trie; keys 1-3 bytes over a 4-symbol alphabet (dense shared prefixes, keys that are prefixes of other keys), 1-2 bytes over a 7-symbol alphabet with 5 different first nibbles (wide root branch), or 32-byte keys sharing 28+ byte prefixes; values 1-40 bytes (embedded < 32 and hashed >= 32 node encodings); plus every put/delete sequence of length <= 2 (quick) / <= 4 and 1/8 of length 5 (thorough) over a 6-key universe. Root hash observed after every op, the full key/value iteration at random points and at the end of every random history; half of the random histories end with a fresh StackTrie fed 1-12 pairs (mostly strictly ascending equal-length keys; 1/8 unsorted, occasional duplicates, empty values and keys of different lengths, where the Go code returns errors or panics), per-Update result and Hash compared. Non-trivial: >= 4 ops including a delete or a batch, non-empty final set; distinct = distinct case line.",
+		Rule: "random histories (1-30 ops) of Update/Delete (empty value)/UpdateBatch (1-40 entries, real goroutines; the model applies the per-nibble groups in a random order; half of the batches on a populated trie are SHAPED by the generator's own copy of the key set: they keep 0/1/2 populated root positions and erase every key of the others (1/6 near misses), contain 0-3 repeated-key sequences put/put, put/erase, erase/put, put/erase/put, erase/erase, put/put/erase, put/same-put on existing, doomed and fresh keys incl. fresh keys in emptied positions, merged in random order, a quarter cut below the parallel threshold 4; random batches repeat a key with probability 1/5 per entry and a third are deletion-heavy)/Get on an in-memory trie; keys 1-3 bytes over a 4-symbol alphabet (dense shared prefixes, keys that are prefixes of other keys), 1-2 bytes over a 7-symbol alphabet with 5 different first nibbles (wide root branch), or 32-byte keys sharing 28+ byte prefixes with 4 different first nibbles (branch root); values 1-40 bytes (embedded < 32 and hashed >= 32 node encodings); plus every put/delete sequence of length <= 2 (quick) / <= 4 and 1/8 of length 5 (thorough) over a 6-key universe; plus, on every branch-rooted subset of three one-byte keys in three root positions, EVERY batch of 4 entries over {put, erase} x the three keys (thorough: and 1/4 of the 5-entry batches). Root hash observed after every op, the full key/value iteration at random points and at the end of every random history; half of the random histories end with a fresh StackTrie fed 1-12 pairs (mostly strictly ascending equal-length keys; 1/8 unsorted, occasional duplicates, empty values and keys of different lengths, where the Go code returns errors or panics), per-Update result and Hash compared. Non-trivial: >= 4 ops including a delete or a batch, non-empty final set; distinct = distinct case line.",
 		Gen:  gen,
 		Run:  run,
 	})
